@@ -315,7 +315,7 @@ void AsyncSim::ha_final_checks() {
 		if (f.xfer >= 0) {
 			// the body of a transfer is only looked at while the request that opened it is still waiting for its response
 			Xfer &x = *C.xfers[f.xfer];
-			if (!x.reported || rcv_to == 0 || x.done_seq == 0) all_read = false;
+			if (!x.reported || rcv_to == 0 || x.done_seq == 0 || x.result != CURLE_OK || x.http_code >= 400 || x.arrived != x.resp_body.size()) all_read = false; // a failed or cut transfer delivers no body
 			else if (backward_jump || K.now_ms - x.added_ms >= (int64_t)rcv_to * 1000) all_read = false;
 			else {
 				// ... and that request fails together with everything else that waits at this endpoint as soon as the sub-service meets a
